@@ -269,7 +269,13 @@ def translate(repo):
     thr = one(r"if\s*\(\s*temp\s*\.\s*infinity_norm\(\)\s*<=\s*(.+?)\)\s*\{", v2, "2x2 identity threshold")
     emit("ev2_identThreshold", ["eps", "normA"], "K", tr(thr, ["eps", "normA"]),
          "if(temp.infinity_norm() <= %s)" % thr.strip())
-    if not re.search(r"eigenVectors\s*\[0\]\s*=\s*\{\s*1\.0\s*,\s*0\.0\s*\}\s*;\s*eigenVectors\s*\[1\]\s*=\s*\{\s*0\.0\s*,\s*1\.0\s*\}\s*;", v2):
+    # the identity branch must assign all four entries of the caller's matrix (which may hold anything on entry): either
+    # row by row or as a whole; literals 1 / 1.0 / 0 / 0.0
+    one_, zero_ = r"1(?:\.0*)?", r"0(?:\.0*)?"
+    rowwise = (r"eigenVectors\s*\[0\]\s*=\s*\{\s*%s\s*,\s*%s\s*\}\s*;\s*eigenVectors\s*\[1\]\s*=\s*\{\s*%s\s*,\s*%s\s*\}\s*;"
+               % (one_, zero_, zero_, one_))
+    whole = (r"eigenVectors\s*=\s*\{\s*\{\s*%s\s*,\s*%s\s*\}\s*,\s*\{\s*%s\s*,\s*%s\s*\}\s*\}\s*;" % (one_, zero_, zero_, one_))
+    if not re.search(rowwise, v2) and not re.search(whole, v2):
         raise TranslateError("2x2: identity branch does not assign the unit vectors")
     cols0 = re.findall(r"(?:FieldVector\s*<\s*K\s*,\s*2\s*>\s+)?\bev0\s*=\s*\{([^}]*)\}\s*;", v2)
     cols1 = re.findall(r"(?:FieldVector\s*<\s*K\s*,\s*2\s*>\s+)?\bev1\s*=\s*\{([^}]*)\}\s*;", v2)
